@@ -534,6 +534,10 @@ func TestVerifC16(t *testing.T) {
 			vC16RunHist(k, last)
 			return
 		}
+		if last := c.l[len(c.l)-1]; kind == 31 && last.isList() && len(last.l) == 9 && last.l[0].isBytes() && string(last.l[0].b) == "big" {
+			vC16RunBig(k, last)
+			return
+		}
 		vC16RunStruct(k, c)
 	}
 	if k.replay != nil {
@@ -561,6 +565,7 @@ func TestVerifC16(t *testing.T) {
 	vC16Matrix(k)
 	vC16Crafted(k)
 	vC16Histories(k)
+	vC16Big(k)
 	n := k.N(3000, 30000)
 	for i := 0; i < n; i++ {
 		runOne(vC16GenStruct(k, k.rnd))
